@@ -9,20 +9,9 @@ TRUSTED_COMMON = [
 PROPS = {}
 NOT_APPLICABLE = {}
 
-PROPS["C11"] = {
-    "level_text": "Kernel-checked theorems: both in-repo CRC-64 tables (regenerated from the source on every run) equal the bit-by-bit "
-                  "Jones/reflected CRC for all 256 indices, hence both digests equal the specification for every byte string, state and chunking; "
-                  "any single-byte substitution changes the CRC (injectivity of the update); every emitted DUMP payload verifies and every "
-                  "single-byte alteration, short payload or version above the supported one is rejected by both checkers; footer accept/reject. "
-                  "The checker/emitter models are tied to the Go code by an exhaustive per-artefact substitution run.",
-    "level_note": "Trusted: Lean kernel; factgen table extraction; models of createValueDump/verifyDump/CheckVersionChecksum/Footer tied by "
-                  "differential testing only; the external crc64 module is compared, not proved.",
-    "rule": "digest: random byte strings (0..2000 bytes) under random chunkings incl. empty writes, three CRC implementations; "
-            "verify: emitted DUMP payloads, EVERY single-byte substitution (255 values x every position) of generated payloads, "
-            "every truncation, a version-field sweep with matching checksum, random strings; footer: intact and byte-flipped. "
-            "non-trivial = every case except random-noise verify inputs shorter than 10 bytes; distinct by case text",
-    "nontrivial": lambda c, i: not (c.startswith("verify") and len(c.split()[1]) < 20),
-    "trusted": ["external module github.com/cupcake/rdb/crc64 (used by CheckVersionChecksum) is modelled by the bitwise spec and compared on every digest case",
-                "Go: hash.Hash64/io.MultiWriter/encoding/binary semantics"],
-    "assumptions": ["value-data/trailer positions only: a substitution in structural bytes of an RDB may end the parse elsewhere"],
-}
+
+# per-property files props_cXX.py register themselves into PROPS
+import glob as _glob, importlib as _importlib, os as _os, sys as _sys
+_sys.modules.setdefault("props", _sys.modules[__name__])
+for _f in sorted(_glob.glob(_os.path.join(_os.path.dirname(_os.path.abspath(__file__)), "props_c*.py"))):
+    _importlib.import_module(_os.path.basename(_f)[:-3])
